@@ -19,6 +19,10 @@ func (p *Parser) getToken() {
 
 	p.isReplayedToken = false
 
+	// the first token of a line (or of the file) follows a line break
+	p.isLineHead = p.token == '\n' || !p.hasToken
+	p.hasToken = true
+
 	if p.Lexer.Advance() {
 		p.token = p.Lexer.Token()
 
@@ -160,6 +164,13 @@ func (p *Parser) Read() (*base.T, error) {
 	}
 
 	t.IsBeforeSpace = p.Lexer.IsSpace
+
+	// "x = 5\n[1, 2].each { ... }": a bracket that opens a line is an array literal,
+	// not an index on the value of the previous line
+	if p.token == '[' && p.isLineHead {
+		t.IsBeforeSpace = true
+	}
+
 	p.Lexer.IsSpacePrev = p.Lexer.IsSpace
 
 	p.Lexer.IsSpace = false
